@@ -1,9 +1,9 @@
 """Shared helpers of the ECDSA checks C01 / C02 / C03 / C14 (correspondence + search stages).
 
 * curve tokens of the driver protocol (`p,a,b,gx,gy,n,h,j|a`)
-* toy curves of PRIME group order (cofactor 1, no point of order 2: the model's point layer is textbook
-  affine arithmetic, so model and code can only be compared where the real point arithmetic is right;
-  K1 lives on even-order curves), with a PointJacobi generator (mode `j`) and a legacy Point generator (mode `a`)
+* toy curves of PRIME group order (cofactor 1, no point of order 2: the `ecdsaref_*` ops and the search oracle are
+  textbook affine arithmetic, which agrees with the code only where the real point arithmetic is right; K1 lives
+  on even-order curves), with a PointJacobi generator (mode `j`) and a legacy Point generator (mode `a`)
 * an INDEPENDENT textbook affine implementation (the search oracle; shares no code with /repo or the model)
 * ParCorr: common.Corr whose model side runs up to 16 driver processes in parallel, cost-balanced
 * FakeCurve for `_truncate_and_convert_digest` with arbitrary orders; bit-string reading of "leftmost bits"
@@ -395,6 +395,28 @@ class ParCorr(Corr):
         self._seen.add(line)
         Corr.add(self, line, thunk, tag)
         self.costs.append(cost)
+
+    def mirror_ref(self, keep=None):
+        """a second stream: the lines of this one that are on TOY curves (and pass `keep(line, tag)`), sent to the
+        `ecdsaref_<op>` handlers = the same ECDSA model over the textbook affine point layer (spec-level reference);
+        the implementation's answers are the ones already recorded"""
+        m = ParCorr(self.ctx, self.name + ".ref-affine", self.procs)
+        for line, out, tag, cost in zip(self.lines, self.impl, self.tags, self.costs):
+            toks = line.split(" ")
+            if not toks[0].startswith("ecdsa_") or len(toks) < 2 or "," not in toks[1]:
+                continue
+            try:
+                if int(toks[1].split(",")[0]) >= 256:
+                    continue
+            except ValueError:
+                continue
+            if keep is not None and not keep(line, tag):
+                continue
+            m.lines.append("ecdsaref_" + line[len("ecdsa_"):])
+            m.impl.append(out)
+            m.tags.append(tag)
+            m.costs.append(cost)
+        return m
 
     def _drive(self, idxs):
         p = subprocess.run([common.DRIVER], input="\n".join(self.lines[i] for i in idxs) + "\n",
